@@ -5,7 +5,8 @@
    named by the state it was produced in, Marshal is the identity.
 
    in : fsm <id> <variant: 3 chars, fix_d3 fix_d15 fix_d18> <proto> <sink> L <entry>* S <step>*
-        entry = <idx>:<kind c|i|m>:<ts>:<exp|->:<hex payload>      step = A | S<t>:ok | S<t>:fail<k> | R | X | Q..
+        entry = <idx>:<kind c|i|m>:<ts>:<exp|->:<hex payload>
+        step = A | S<t>:ok | S<t>:fail<n> | SP<t>:<k>:ok | SP<t>:<k>:fail<n> | R | X | Q..
    out: fsm <id> | <step record> | ...     (exactly the Go driver's line, with state/batch digests
         replaced by descriptors: the '.'-joined indexes of the applied entries, `!` = applied as
         message of death; harness/py/props/c02.py translates between the two) *)
@@ -104,16 +105,20 @@ Definition drive_step (v : variant) (L : list entry) (w : dworld) (tok : string)
     Some (match w_persisted w with [] => "X:none" | _ => "X:snap" end,
           do_step dS dO dB d_init d_apply d_marshal d_unmarshal d_exp_of v L w SRestart)
   else if Ascii.eqb c "S"%char then
-    let f := split_on ":"%char (tail_str tok) in
+    (* S<t>:ok|fail..        Snapshot + Persist back to back
+       SP<t>:<k>:ok|fail..   Snapshot now, k more entries applied, then Persist of that snapshot *)
+    let late := starts_with "SP" tok in
+    let f := split_on ":"%char (if late then tail_str (tail_str tok) else tail_str tok) in
     let t := Z_field f 0 in
-    let ok := String.eqb (nth_field f 1) "ok" in
+    let k := if late then N.to_nat (N_field f 1) else O in
+    let ok := String.eqb (nth_field f (if late then 2 else 1)%nat) "ok" in
     match fsm_snapshot dS dO dB d_init d_apply d_marshal d_unmarshal d_exp_of v t (w_fsm w) with
     | None => Some ("S:err", w)
     | Some (f', sn) =>
-        let w' := do_step dS dO dB d_init d_apply d_marshal d_unmarshal d_exp_of v L w (SSnapshot t ok) in
+        let w' := do_step dS dO dB d_init d_apply d_marshal d_unmarshal d_exp_of v L w (SSnapshot t k ok) in
         let head := "S:" ++ dec_of_N (sn_first sn) ++ ":" ++ dec_of_N (sn_last sn) ++ ":" ++ show_state (sn_state sn) in
         if ok then
-          let p := persist dS dO dB f' sn (w_applied w) in
+          let p := persist dS dO dB (w_fsm w') sn (w_applied w) in
           Some (head ++ ":ok:" ++ show_state (p_state p) ++ ":" ++
                 show_list (map (fun e => dec_of_N (e_idx e)) (p_entries p)), w')
         else Some (head ++ ":fail", w')
